@@ -290,4 +290,20 @@ def docLoadable (fs : FS) (S : List Ns) (main : Seg) : Bool :=
       | none => false
       | some f => f.rules.all fun rule => rule.refs.all (docResolvable fs x f)
 
+/-! ## histories: one process builds several meta-models, the grammar files change in between -/
+
+/-- One step of a history: the grammar files as they are on disk at the moment
+`metamodel_from_file(root_path/main.tx)` is called. -/
+structure Step where
+  fs : FS
+  main : Seg
+
+/-- What a process obtains that builds one meta-model per step (files rewritten, removed, added or
+replaced by another tree at the same paths in between; another main file; earlier loads that
+failed): `TextXMetaModel.__init__` starts from empty `namespaces` / `_imported_namespaces` and
+`metamodel_from_file` reads every file again, so nothing of an earlier step takes part. -/
+def loadHistory (fuel : Nat) : List Step → List (Except Err St)
+  | [] => []
+  | s :: rest => loadMain s.fs fuel s.main :: loadHistory fuel rest
+
 end Imp
